@@ -124,14 +124,19 @@ def writeToSinks (s : BSt) (st : Stmt) : List Nat → BSt × Bool
 
 def dispatch (s : BSt) (st : Stmt) : BSt × Bool := writeToSinks s st (s.lgOf st.lg).sinks
 
-/-- `BacktraceStorage::process`: replay in ring order; the ring is cleared only if no exception escaped -/
+/-- `BacktraceStorage::process`: replay in ring order; the ring is cleared only if no exception escaped the callback.
+    F26: with the callback `_replay_backtrace_event` (`replayCatchesPerEvent`, extracted) a sink exception is caught per
+    stored event, reported through the notifier, and the replay goes on — so no exception escapes and the ring is always
+    cleared; with the pinned callback (plain dispatch) the exception aborts the replay and the ring keeps everything. -/
 def replayRing (s : BSt) (lgi : Nat) : BSt × Bool :=
   match (s.lgOf lgi).bt with
   | none => (s, false)
   | some r =>
     let rec go (s : BSt) : List Stmt → BSt × Bool
       | [] => (s, false)
-      | x :: xs => let r := dispatch s x; if r.2 then r else go r.1 xs
+      | x :: xs =>
+        let r := dispatch s x
+        if r.2 then (if r.1.cfg.replayCatchesPerEvent then go (r.1.emit (.notify "n:wfail")) xs else r) else go r.1 xs
     let res := go s r.replay
     if res.2 then res else (res.1.setLg lgi (fun l => { l with bt := some r.cleared }), false)
 
